@@ -461,6 +461,15 @@ def isStmt : Source → Bool
   | .set _ _ _ => true
   | _ => false
 
+/-- shape the constructors guarantee: a reference wraps a table or a statement (`Reference.__new__` unwraps
+references; a referenced join is not renderable), the operands of a set are statements (`Set.__new__`) -/
+def shaped : Source → Bool
+  | .table _ _ => true
+  | .ref i _ => (isTable i || isStmt i) && shaped i
+  | .join l r _ _ => shaped l && shaped r
+  | .set l r _ => isStmt l && isStmt r && shaped l && shaped r
+  | .query src _ _ _ _ _ _ => shaped src
+
 /-- well-formedness of every query context of the statement: a reference wraps a table or a statement, the operands
 of a set are statements (`Set.__new__` stores `.statement`), and per query: distinct origins, conditions in scope,
 no table scanned both directly and through a reference -/
